@@ -12,7 +12,9 @@
    source narrows or may overflow (Image: `as i32`, `term_offset + block_length_limit`, bound
    arithmetic) are modelled with the machine operators in Image.v.
    Definitions only. *)
-Require Import V.Base.MachineInt V.Generated.GenConsts V.Model.LogBase.
+Require Import V.Base.MachineInt.
+Require Import V.Generated.GenConsts.
+Require Import V.Model.LogBase.
 Open Scope Z_scope.
 
 (* ControlledPollAction *)
